@@ -9,7 +9,7 @@ MIN_PER_SHARD = 10
 RULE = (
     "Worlds/layouts/states as in C01. Programs of 1-3 steps, mostly generalised measurements: complete operator "
     "sets of 2-4 elements (non-projective: blocks of a Haar isometry; projective: a partition of a Haar-rotated "
-    "basis) on 1-2 target subsystems in generated order, through subsystem.measure_POVM (incl. partial), "
+    "basis; one in five steps a weak 'unsharp' number-basis measurement with strength 1e-8..1e-2) on 1-3 target subsystems (possibly spread over several product spaces) in generated order, through subsystem.measure_POVM (incl. partial), "
     "envelope.measure_POVM and composite.measure_POVM, destructive or not, with the sampler intercepted and a "
     "generated branch forced. Oracle: the whole probability vector handed to the sampler equals Tr(M_i rho_red "
     "M_i^+) (<= 1e-8); the returned index is the drawn one; non-destructive mode destroys nothing, destructive "
